@@ -47,6 +47,8 @@ class Event:
 
 
 class SubCtx(ReqCtx):
+    is_subscription = True
+
     __slots__ = ("worlds", "sub_calls", "sub_kwargs", "source", "make_source",
                  "sub_async", "events_seen", "next_calls", "sub_root",
                  "event_values")
@@ -176,11 +178,11 @@ def _plan(draws, spec, idx, scenario):
         literal_args = not any(
             t.startswith(("$", "[", "{")) or t == "null" for _, t in f.args)
         if shape == 0:
-            op.fragments["FR"] = ("Subscription", [f])
+            op.fragments["FR"] = (spec.subscription, [f])
             op.sel = [Spread("FR")]
         elif shape == 1:
-            op.sel = [InlineFrag("Subscription" if rs.below(2, "c") else None,
-                                 [f])]
+            op.sel = [InlineFrag(
+                spec.subscription if rs.below(2, "c") else None, [f])]
         elif literal_args:
             twin_sel = None
             fdef = spec.fields[f.name]
@@ -189,7 +191,7 @@ def _plan(draws, spec, idx, scenario):
             twin = FieldSel(f.name, alias=f.alias, args=f.args,
                             argspec=f.argspec, sel=twin_sel)
             twin.ptype = f.ptype
-            op.fragments["FR"] = ("Subscription", [twin])
+            op.fragments["FR"] = (spec.subscription, [twin])
             op.sel = [f, Spread("FR")]
         from .workload import resolve_op
         resolve_op(op, spec)
@@ -203,10 +205,10 @@ def _plan(draws, spec, idx, scenario):
         op.vars.update(op2.vars)
         both = [op.sel[0], f2]
         if scenario == "two-inside-one-fragment":
-            op.fragments["FX"] = ("Subscription", both)
+            op.fragments["FX"] = (spec.subscription, both)
             op.sel = [Spread("FX")]
         else:
-            op.sel = [InlineFrag("Subscription", both)]
+            op.sel = [InlineFrag(spec.subscription, both)]
     if scenario in ("two-fields", "two-aliases", "two-via-fragment"):
         extra = OpGen(rs, spec, max_depth=1, budget=4,
                       features={"sub_field":
@@ -219,13 +221,17 @@ def _plan(draws, spec, idx, scenario):
         op.vars.update(op2.vars)
         if scenario == "two-via-fragment":
             f2.alias = "other"
-            op.fragments["FX"] = ("Subscription", [f2])
+            op.fragments["FX"] = (spec.subscription, [f2])
             from .workload import Spread
             op.sel.append(Spread("FX"))
         else:
             op.sel.append(f2)
     if scenario == "query-op":
-        op = OpGen(rs, spec, max_depth=1, budget=4).generate("query")
+        if spec.subscription == spec.query:
+            # the subscription field itself, asked for as a QUERY
+            op.kind = "query"
+        else:
+            op = OpGen(rs, spec, max_depth=1, budget=4).generate("query")
     if scenario == "mutation-op":
         op = OpGen(rs, spec, max_depth=1, budget=4).generate("mutation")
     if op.kind == "subscription":
@@ -293,7 +299,7 @@ def _roots(op):
 
 def _sub_kwargs(spec, op):
     from .workload import effective_kwargs
-    return effective_kwargs(spec, "Subscription", _root_field(op))
+    return effective_kwargs(spec, spec.subscription, _root_field(op))
 
 
 def _root_field(op):
@@ -314,7 +320,7 @@ def run_case(draws, prop, tier="quick"):
     except Exception as err:  # noqa: B902
         raise HarnessError("generated schema rejected: %r\n%s"
                            % (err, spec.sdl()))
-    bundle.schema.register_subscription("Subscription", "s0",
+    bundle.schema.register_subscription(spec.subscription, "s0",
                                         _subscription_resolver)
     bundle.set_mode("asyncio")
     scenario = "ok"
